@@ -52,7 +52,7 @@ PROPS = {
         outside="reader/writer schema pairs other than corpus/t_evolve_{w,r}.thrift; more than one unknown field per message; the compact protocol; asynchronous decoding",
     ),
     "C02": dict(
-        modules=["common", "protos", "ref_thrift", "gen_thrift", "c02", "insts_c02", "c02d", "insts_c02d"],
+        modules=["common", "protos", "ref_thrift", "l0", "l1", "gen_thrift", "c02", "insts_c02", "c02d", "insts_c02d"],
         gen=GEN_THRIFT,
         outside="IDL documents other than corpus/t_basic.thrift; containers with more than 2 elements, strings longer than 2 bytes, recursion deeper than 2; hash containers (ahash RandomState needs getrandom, an unsupported foreign call) - btree containers are used; decode_async (see C12); split / keep_unknown_fields builder options (C13)",
     ),
@@ -72,10 +72,14 @@ PROPS = {
     ),
     "C05": dict(
         modules=PB_GEN, gen=GEN_PB,
+        # second build with pilota's `pb-encode-default-value` feature: the map codec is the only
+        # runtime code that depends on it
+        builds=[("", None), ("pb-encode-default-value", ["c05_q_dec_btree_map_w", "c05_q_dec_btree_map_r1"])],
         outside="repeated fields with more than 2 elements, strings/bytes longer than 3, maps with more than 1 entry, hash maps (ahash RandomState needs getrandom), messages beyond the corpus; tags above 2047 for the quick tier of scalar modules (all tags in thorough and for the key codec)",
     ),
     "C06": dict(
         modules=PB_GEN, gen=GEN_PB,
+        builds=[("", None), ("pb-encode-default-value", ["c06_q_dec_btree_map_w", "c06_q_dec_btree_map_r1"])],
         outside="as C05",
     ),
     "C01": dict(
